@@ -114,6 +114,11 @@ pub(crate) enum InnerNotificationEvent {
 
         /// Notification sink.
         sink: NotificationSink,
+
+        /// Identifier of this stream. Received notifications are queued together with the
+        /// identifier of the stream they arrived on, so that what is left of a closed stream is
+        /// not handed out under a later stream to the same peer.
+        stream: u64,
     },
 
     /// Notification stream closed.
